@@ -202,3 +202,11 @@ Example C04_nonvacuous :
   history P (CUNew [7; 0; 9; 0; 0; 0; 0]) [] = Ret (OU [7; 9]) /\
   canonb [7; 9] = true.
 Proof. repeat split; vm_compute; reflexivity. Qed.
+
+(* Every function that normalises its result in the reviewed baseline (tools/norm_baseline.json)
+   still contains at least as many normalize()/normalized()/biguint_from_vec/from_biguint calls
+   (list regenerated from /repo on every run): a dropped normalisation breaks this by name. *)
+From BigNum Require Import Cfg.
+Theorem C04_norm_sites_present : forallb norm_ok norm_sites = true.
+Proof. vm_compute. reflexivity. Qed.
+Print Assumptions C04_norm_sites_present.
